@@ -438,6 +438,7 @@ func c05TreeGen(tier Tier) TreeGen {
 		Leaf:  genC05Leaf,
 		Conds: true, CondExprStack: true, NotAsCondExpr: true,
 		Caps: true, EmptyStacks: true,
+		Options: true, // symbols, delimiters, fold ...: presentation settings must never mask a real difference
 	}
 	if tier.Thorough {
 		g.MaxDepth, g.MaxWidth, g.Budget = 4, 9, 34
